@@ -154,6 +154,11 @@ def run(rep: Report, tier: str) -> None:  # noqa: C901
     # ---------------- R24.8 flags ----------------
     rep.rule("R24.8", "rendering flags set in a handler are restored on every normal path out of it")
     _check_flags(P, rep, S)
+    from sa import globalsx as _gx
+    rep.instance("R24.8", "renderer-instances-are-per-call", sample={"stateful attributes of ASTString": sorted(_gx.stateful_attrs(P, "vtlengine.AST.ASTString.ASTString"))[:8]})
+    if not _gx.stateful_attrs(P, "vtlengine.AST.ASTString.ASTString"):
+        raise AnalysisError("ASTString no longer has per-call state written by its handlers: the per-call-instance rule has lost its anchor")
+    _gx.report_shared_instances(P, rep, "R24.8", "vtlengine.AST.ASTString.ASTString", "a later rendering drops or adds clauses (e.g. group by / having of an aggregation)")
 
     # ---------------- R24.9 names ----------------
     rep.rule("R24.9", "reserved-word table covers the lexer's keywords; name-carrying fields go through the name formatter")
@@ -557,7 +562,39 @@ def _returns_call_shape(body: List[ast.stmt]) -> Optional[str]:
     return None
 
 
+POSITIONAL_FIELDS = {"params", "children", "operands", "clauses", "cases", "grouping", "partition_by", "order_by"}
+
+
+def _check_positional(P: Program, rep: Report, S) -> None:
+    """positional lists of a node (arguments, clause items) are rendered element for element: no handler iterates one of them
+    with a filter (comprehension `if`, `continue` / `break` in a for) - dropping an element shifts every later argument one
+    position to the left.  Expected count on a sound tree: 0 (positive example: seeded change C25_4, thorough self-test)."""
+    n_iter = 0
+    for name, m in sorted(S.methods.items()):
+        for n in ast.walk(m.node):
+            gens = []
+            if isinstance(n, (ast.ListComp, ast.GeneratorExp, ast.SetComp)):
+                gens = [(g.iter, g.ifs) for g in n.generators]
+            elif isinstance(n, ast.For):
+                skips = [x for x in ast.walk(n) if isinstance(x, (ast.Continue, ast.Break))]
+                gens = [(n.iter, skips)]
+            for it, filters in gens:
+                fields = {x.attr for x in ast.walk(it) if isinstance(x, ast.Attribute) and isinstance(x.value, ast.Name) and x.value.id == "node"}
+                if not (fields & POSITIONAL_FIELDS):
+                    continue
+                n_iter += 1
+                rep.instance("R24.5", f"positional/{name}/{src(it)[:30]}", nontrivial=True, sample={"iteration": src(it)[:60], "filtered": bool(filters)})
+                bad = [x for x in filters if not (isinstance(x, ast.Compare) and len(x.ops) == 1 and isinstance(x.ops[0], ast.IsNot)
+                                                  and isinstance(x.comparators[0], ast.Constant) and x.comparators[0].value is None)]
+                if bad:
+                    rep.add(Finding("R24.5", f"R24.5/positional-filter/{name}/{src(it)[:30]}", m.module.rel, n.lineno, m.qualname,
+                                    f"{name} renders the positional list `{src(it)[:50]}` through a filter (`{src(bad[0])[:70]}`): an element that is skipped is not written, so every "
+                                    f"later argument moves one position to the left in the rendered text (e.g. substr(x, _, 3) becomes substr(x, 3))"))
+    rep.floor("R24.5 positional-list iterations in the renderer", n_iter, 10)
+
+
 def _check_dispatch(P: Program, rep: Report, S, built) -> None:  # noqa: C901
+    _check_positional(P, rep, S)
     # ParamOp: exhaustive branches
     m = S.methods.get("visit_ParamOp")
     if m is None:
